@@ -16,6 +16,7 @@ import (
 	"io"
 	"math"
 	"math/big"
+	"mime"
 	"net"
 	"net/http"
 	"net/netip"
@@ -33,7 +34,7 @@ import (
 )
 
 type typedPkg struct {
-	New      func(cb func(ctx context.Context, op string, args []any, res any) error, ne func(ctx context.Context, err error, res any), fill func(any), hc ht.Client, mws ...middleware.Middleware) (http.Handler, any, any, error)
+	New      func(cb func(ctx context.Context, op string, args []any, res any) error, ne func(ctx context.Context, err error, res any), fill func(any), hc ht.Client, eh func(context.Context, http.ResponseWriter, *http.Request, error), mws ...middleware.Middleware) (http.Handler, any, any, error)
 	Impls    map[string][]reflect.Type
 	Ops      []string
 	Webhooks map[string]string // webhook operation -> webhook name
@@ -332,6 +333,17 @@ func diffIn(path string, a, b *Node, defaults map[string]string, out *[]string, 
 	}
 	a, b = mergeExtra(a), mergeExtra(b)
 	a, b = dropDupKeys(a, b)
+	if a.T == "str" && b.T == "str" && a.V != b.V && strings.HasSuffix(path, ".ContentType") {
+		// the media type arrived without its parameters (or in another case): its own class
+		sa, err1 := strconv.Unquote(a.V)
+		sb, err2 := strconv.Unquote(b.V)
+		if err1 == nil && err2 == nil {
+			if ma, _, e1 := mime.ParseMediaType(sa); e1 == nil && ma == strings.ToLower(sb) {
+				*out = append(*out, ctParams+fmt.Sprintf("%s: supplied %s, arrived %s", path, a.V, b.V))
+				return
+			}
+		}
+	}
 	if a.T == "num" && b.T == "num" && a.V != b.V && !strings.Contains(path, "Params.") {
 		// one unit in the last place, in a body: the JSON number reader of the jx dependency (its fast path for
 		// numbers with a fraction) is inexact for some 16-17 digit texts; reported as its own class
@@ -465,6 +477,9 @@ func mergeExtra(n *Node) *Node {
 	m.C = append(m.C, merged)
 	return m
 }
+
+// ctParams marks a media type that arrived as the bare type.
+const ctParams = "CTPARAMS "
 
 // numULP marks a number that arrived one unit in the last place away.
 const numULP = "NUMULP "
@@ -687,6 +702,10 @@ func (g *vgen) hinted(hint string) (string, bool) {
 	lh := strings.ToLower(hint)
 	if i := strings.LastIndex(lh, "."); i >= 0 && (strings.Contains(lh[i:], "email") || strings.Contains(lh[i:], "hostname")) {
 		lh = lh[i:] // the innermost name decides
+	}
+	if strings.HasSuffix(lh, ".contenttype") {
+		// the media type of a body whose declared type is a mask (image/*, */*): with and without parameters
+		return []string{"text/plain", "text/plain; charset=iso-8859-1", "image/png", "application/octet-stream", "application/x-sim; v=\"1\"", "image/svg+xml; charset=utf-8", "application/problem+json"}[g.r.intn(7)], true
 	}
 	switch {
 	case strings.Contains(lh, "email"):
@@ -1318,6 +1337,10 @@ func (r *CallRecord) sealTyped(pkg string) {
 				add(fmt.Sprintf("request/number arrived one unit in the last place away (delivery %d): %s", i, d[len(numULP):]))
 				continue
 			}
+			if strings.HasPrefix(d, ctParams) {
+				add(fmt.Sprintf("request/media type arrived without its parameters (delivery %d): %s", i, d[len(ctParams):]))
+				continue
+			}
 			add(fmt.Sprintf("request/handler received a different value (delivery %d): %s", i, d))
 		}
 		var ss []string
@@ -1383,6 +1406,10 @@ func (r *CallRecord) sealTyped(pkg string) {
 				}
 				if strings.HasPrefix(d, numULP) {
 					add("response/number arrived one unit in the last place away: " + d[len(numULP):])
+					continue
+				}
+				if strings.HasPrefix(d, ctParams) {
+					add("response/media type arrived without its parameters: " + d[len(ctParams):])
 					continue
 				}
 				add("response/caller received a different value: " + d)
